@@ -5,7 +5,7 @@ SRC/verify.txt (produced by tools/verify_seed.sh). Refuses unless build OK, demo
 import sys, os, shutil, glob, json, re
 pid, sk, dk = sys.argv[1:4]
 force = len(sys.argv) > 4 and sys.argv[4] == "--force"
-src = "/tmp/seedwork/%s/out/%s" % (pid, sk)
+src = os.environ.get("SEEDROOT", "/tmp/seedwork4") + "/%s/out/%s" % (pid, sk)
 dst = "/verif/seeded/%s-%s" % (pid, dk)
 res = open(os.path.join(src, "verify.txt")).read()
 def grab(key):
@@ -29,7 +29,7 @@ m = re.search(r"(?is)#+[^\n]*(needs|manifest)[^\n]*\n(.*?)(\n#|\Z)", notes)
 if m: needs = " ".join(m.group(2).split())[:600]
 meta = {
     "property": pid,
-    "round": 3,
+    "round": int(os.environ.get("SEEDROUND", "4")),
     "source": "independent sub-agent given only the property text (plus a list of functions already taken by earlier seeds) and a scratch worktree; nothing from /verif",
     "changed_files": re.findall(r"^\+\+\+ b/(.*)$", open(os.path.join(dst, "patch.diff")).read(), re.M),
     "needs_to_manifest": needs,
